@@ -289,7 +289,43 @@ def rule_flush(ctx):
                   f"flush returns counters {show(('tuple', t[1][3:5]))}, a new map has {show(('tuple', counters_new))}", fset.where(ev.node))
 
 
+def rule_fixed_positions(ctx):
+    """DenovoMCMC._mcmc samples only the positions that are not fixed as homozygous and scatters the sampled genotypes back into a
+    template of the fixed alleles.  The log-likelihoods it returns together with those genotypes must be those of the whole
+    genotypes: the sampler's value plus the contribution of the fixed positions, which is the likelihood of the template restricted to
+    them (all haplotypes agree there, so the mixture factorises).  Without it the recorded llk is not the llk of the recorded genotype
+    (defect Q: 40 reads, 5 SNVs, default fix_homozygous: trace -55.588, recomputed -55.897)."""
+    fq = 'mchap.assemble.mcmc.DenovoMCMC._mcmc'
+    f = ctx.func(fq)
+    r = ctx.recon(fq)
+    LLK = 'mchap.assemble.likelihood.log_likelihood'
+    rets = [ev for ev in r.events if ev.kind == 'return' and ev.data[0][0] == 'tuple' and len(ev.data[0][1]) == 2]
+    scattered = [ev for ev in rets if any(x[0] == 'upd' and any(y[0] == 'call' and y[1].endswith('_denovo_assembler') for y in walk(x[3])) for x in walk(ev.data[0][1][0]))]
+    ctx.need(len(scattered) == 1, f"{fq}: the return of the genotypes scattered back into the template of fixed alleles was not found")
+    gen, llk = scattered[0].data[0][1]
+    sampler = [x for x in walk(llk) if x[0] == 'call' and x[1].endswith('_denovo_assembler')]
+    fixed_part = [x for x in walk(llk) if x[0] == 'call' and x[1] == LLK]
+    ok = bool(sampler) and len(fixed_part) == 1
+    detail = ""
+    if ok:
+        kw = dict(fixed_part[0][3])
+        reads_arg, geno_arg = kw.get('reads'), kw.get('genotype')
+        # both restricted to the same mask, and that mask is the complement of the one the sampler's reads were restricted to
+        def mask_of(t):
+            return t[2][1][-1] if t and t[0] == 'idx' and t[2][0] == 'tuple' else None
+        m_fixed, m_geno = mask_of(reads_arg), mask_of(geno_arg)
+        s_reads = dict(sampler[0][3]).get('reads')
+        m_het = mask_of(s_reads)
+        ok = m_fixed is not None and m_fixed == m_geno and m_het == ('un', 'Invert', m_fixed) and kw.get('read_counts') == ('param', 'read_counts') \
+            and any(x == ('param', 'reads') for x in walk(reads_arg))
+        detail = f"fixed part: reads{show(reads_arg)[5:60] if reads_arg else None}"
+    ctx.check(ok, 'R09.6/fixed-positions', f.construct('llks'), "recorded llk = sampler's llk + likelihood of the fixed positions (same reads, same counts, complementary masks)",
+              "the log-likelihoods returned with the re-assembled genotypes are the sampler's values for the non-fixed positions only: "
+              "they are not the likelihood of the recorded genotypes " + detail, f.where(scattered[0].node))
+
+
 def run(ctx):
+    rule_fixed_positions(ctx)
     rule_linear_threading(ctx)
     rule_key_value(ctx)
     rule_pedigree_samples(ctx)
